@@ -75,6 +75,9 @@ type flPkg struct {
 	byName  map[string][]*ast.FuncDecl
 	stages  map[string]bool
 	visited map[*ast.CallExpr]bool // stage / status calls reached by some root walk
+	// extra: additional named calls of one fact group (nil for the groups that share the standard
+	// vocabulary: their output does not change). Returns true when it emitted the event.
+	extra func(w *flWalker, c *ast.CallExpr, name, recvText, last, argc, use string) bool
 }
 
 var flStageName = regexp.MustCompile(`^(pre|post)[A-Z]`)
@@ -1082,6 +1085,9 @@ func (w *flWalker) call(c *ast.CallExpr, useOf func(*ast.CallExpr) string) {
 	case name == "startReadAndHandle":
 		w.emit("run:startReadAndHandle", "", use)
 	default:
+		if w.x.extra != nil && w.x.extra(w, c, name, recvText, last, argc, use) {
+			return
+		}
 		if ev, ok := flNamed[name]; ok {
 			if ev == "" {
 				ev = name
